@@ -278,7 +278,7 @@ def widebad_cases(rng):
 CANON_FNS = ['inv_ring', 'inv_mod', 'pow_mod', 'reduce_mod', 'mul_redc', 'root', 'lcm', 'gcd_extended', 'div_ceil', 'div_rem', 'cnmo',
              'o_add', 'o_sub', 'o_mul', 'o_neg', 'o_pow', 'o_shl', 'o_shr', 'c_add', 'c_sub', 'c_mul', 'c_neg', 'c_pow', 'c_shl',
              'c_shr', 'c_div', 'c_rem', 's_shl', 's_pow', 'pow', 'shl_op', 'shr_op', 'shl_uint', 'shr_uint', 'from_base_le',
-             'from_base_be', 'from_digits_rt', 'from_str', 'sat_f64', 'wrap_f64', 'sat_f32', 'bits_ops', 'sum_product', 'nt_ops']
+             'from_base_be', 'from_digits_rt', 'from_str', 'sat_f64', 'wrap_f64', 'sat_f32', 'bits_ops', 'sum_product', 'nt_ops', 'ref_ops']
 CANON_OPS = {}
 
 
